@@ -5,7 +5,8 @@
     for all prefixes is explored, not proved ([Modes.CompleteProofs.completeness_stmt]). *)
 From Coq Require Import String.
 From BV Require Import Base.Prelude Cache.Lru Cache.Transparency gen.C15CacheKeys gen.C15Incomplete
-  Modes.Classes Modes.Complete Modes.CompleteProofs Modes.Modes Modes.Example.
+  Modes.Classes Modes.Complete Modes.CompleteProofs Modes.Modes Modes.Example Base.Codec.
+From BV Require Modes.Lex.
 
 (** A bounded memo table with any capacity and any eviction order is invisible when the key
     determines the function's value: after any history of calls the memoised entry point
@@ -217,3 +218,22 @@ Theorem c15_eval_lineno_outside_known :
   eval_builtin_bash St cmd opts exec parse_error parse K_eqb on_hit on_insert h o text base L st.
 Proof. exact eval_lineno_outside_known. Qed.
 Print Assumptions c15_eval_lineno_outside_known.
+
+(** The completeness decision is right on the lexical fragment (word characters, blanks,
+    newlines, quotes, backslashes, `#`): with the tokenizer's quoting state machine as the
+    parser's verdict ([Lex.lex_class], compared with the real parser on every such text up to a
+    length bound), the decision says "more input needed" exactly when the text is not a complete
+    program of the grammar [Lex.Prog] but can be extended to one.  This is
+    [completeness_stmt] for the fragment; beyond it the statement is explored, not proved. *)
+Theorem c15_lex_completeness :
+  forall t, needs_more Lex.lex_class t = true <->
+            (~ Lex.Prog true t /\ exists ext, Lex.Prog true (t ++ ext)).
+Proof. exact Lex.lex_completeness. Qed.
+Print Assumptions c15_lex_completeness.
+
+Theorem c15_lex_examples :
+  Lex.lex_needs_more (lit "a 'b") = true /\ Lex.lex_needs_more (lit "a # 'b") = false /\
+  Lex.lex_needs_more [97; 92; 10]%N = true /\ Lex.lex_needs_more [97; 32; 35; 92; 10]%N = false /\
+  Lex.lex_needs_more [97; 92; 92; 10]%N = false /\ Lex.lex_needs_more [34; 97; 92; 34; 10]%N = true.
+Proof. exact Lex.lex_examples. Qed.
+Print Assumptions c15_lex_examples.
